@@ -251,6 +251,8 @@ PROP_MENU = [
     ("RDATE;VALUE=DATE", "20240102T103000"), ("TRIGGER;VALUE=DURATION", "20200102T090000Z"),
     # characters outside the BMP in parameter values (bare and quoted); date lists mixing value kinds
     ("ATTENDEE;CN=Bob\U0001F600", "mailto:bob@example.com"), ('ORGANIZER;CN="\U00020000 x, y";X-E=\U0001F600\U0001F600', "mailto:o@example.com"),
+    ("FREEBUSY", "20240102T100000Z/PT1H,20240102T1500Z/PT1H"), ("FREEBUSY;FBTYPE=BUSY", "20240102T100000Z/PT1H,20240103T100000Z/PT1H,x"),
+    ("RDATE", "20240101T000000,2024"), ("EXDATE;TZID=Europe/Berlin", "20240109T100000,20240116T1"), ("CATEGORIES", "a,b\\,c,"),
     ("EXDATE", "20240103,20240104T100000"), ("RDATE", "20240201T100000,20240202T100000Z"), ("EXDATE", "20240104T100000Z,20240103"),
     ("RDATE;VALUE=PERIOD", "20240101T000000Z/PT1H,20240105T000000Z/20240105T010000Z"),
     ("DTEND", "20200102T110000Z"), ("DURATION", "PT1H"), ("DURATION", "-P1DT2H3M4S"), ("DUE", "20200105T000000Z"),
